@@ -24,7 +24,7 @@ from simkit.world import World
 PROP = "C20"
 LEVEL = "exploration"
 TIERS = {
-    "quick": dict(runs=1200, timeout=300, max_exchanges=10, shrink_seconds=120, shrink_steps=250),
+    "quick": dict(runs=1000, timeout=300, max_exchanges=10, shrink_seconds=120, shrink_steps=250),
     "thorough": dict(runs=40000, timeout=600, max_exchanges=30, shrink_seconds=400, shrink_steps=800),
 }
 
@@ -176,6 +176,10 @@ def generate(rng, index, cfg):
              "disk_faults": rng.random() < 0.25}
     files = world["files"]
     upload_pool = [files["a.ipynb"], files["b.ipynb"], nbgen.notebook(rng, max_cells=2)]
+    if rng.random() < 0.25:
+        big = nbgen.notebook(rng, max_cells=3, minor=4)
+        big["cells"].append({"cell_type": "markdown", "metadata": {}, "source": "".join(rng.choice(nbgen.VOCAB) for _ in range(rng.choice([500, 3000])))})
+        upload_pool.append(big)
     world["alternates"] = [nbgen.edit(rng, files[rng.choice(GOOD[:3])]) for _ in range(3)]
 
     def name(good=True):
@@ -188,6 +192,8 @@ def generate(rng, index, cfg):
             if r < 0.94:
                 return "/dev/null"
             return URL_OK
+        if world.get("tool_base") == "empty.ipynb" and rng.random() < 0.5:
+            return "empty.ipynb"      # the very file the merge tool was started with
         return rng.choice(BADFILES + URLS_BAD + [5, None, ["a.ipynb"], {"name": "a.ipynb"}])
 
     def jbody(obj):
@@ -325,6 +331,7 @@ def generate(rng, index, cfg):
         ex["frag_seed"] = rng.getrandbits(30)
         ex["gap"] = rng.choice([0.0, 0.0, 0.001, 0.05, 1.0])
         ex["reuse"] = rng.random() < 0.4
+        ex["framing"] = rng.choice(["length"] * 6 + ["chunked", "expect_continue", "http10", "connection_close"])
         ex["net"] = None
         if swarm["net_faults"] and rng.random() < 0.3:
             ex["net"] = rng.choice([{"kind": "close_after", "frac": rng.random()}, {"kind": "reset_after", "frac": rng.random()},
@@ -338,7 +345,15 @@ def generate(rng, index, cfg):
 
     clients = []
     for ci in range(swarm["clients"]):
-        exs = [make_exchange(store_allowed=(ci == 0)) for _ in range(rng.randint(1, cfg["max_exchanges"]))]
+        exs = []
+        for _ in range(rng.randint(1, cfg["max_exchanges"])):
+            e = make_exchange(store_allowed=(ci == 0))
+            exs.append(e)
+            if e["kind"] == "touch":
+                # after the file changed on disk, ask again what was asked before
+                earlier = [x for x in exs if x["kind"] in ("diff_valid", "merge_valid")]
+                if earlier and rng.random() < 0.7:
+                    exs.append(copy.deepcopy(rng.choice(earlier)))
         # a successful close ends the session: keep those rare and late
         keep = []
         for i, e in enumerate(exs):
@@ -526,15 +541,37 @@ class Runner:
         body = (ex.get("body") or "").encode("utf8")
         clen = len(body)
         net = ex.get("net") or {}
+        framing = ex.get("framing", "length")
         if net.get("kind") == "bad_content_length":
             clen = max(0, clen + net["delta"])
-        lines = ["%s %s HTTP/1.1" % (ex["method"], self.full_path(ex)), "Host: 127.0.0.1:54321"]
-        if ex["method"] != "GET" or body:
+            framing = "length"
+        version = "HTTP/1.0" if framing == "http10" else "HTTP/1.1"
+        lines = ["%s %s %s" % (ex["method"], self.full_path(ex), version), "Host: 127.0.0.1:54321"]
+        has_body = ex["method"] != "GET" or bool(body)
+        if has_body:
             lines.append("Content-Type: application/json")
-            lines.append("Content-Length: %d" % clen)
+            if framing == "chunked":
+                lines.append("Transfer-Encoding: chunked")
+            else:
+                lines.append("Content-Length: %d" % clen)
+            if framing == "expect_continue":
+                lines.append("Expect: 100-continue")
+        if framing == "connection_close":
+            lines.append("Connection: close")
         for k, v in (ex.get("headers") or {}).items():
             lines.append("%s: %s" % (k, v))
-        return ("\r\n".join(lines) + "\r\n\r\n").encode("latin1") + body
+        head = ("\r\n".join(lines) + "\r\n\r\n").encode("latin1")
+        if has_body and framing == "chunked":
+            rng = random.Random(ex.get("frag_seed", 0) ^ 0xC4)
+            out, pos = [], 0
+            while pos < len(body):
+                n = rng.choice([1, 7, 64, 1000, len(body)])
+                piece = body[pos:pos + n]
+                out.append(b"%x\r\n" % len(piece) + piece + b"\r\n")
+                pos += len(piece)
+            out.append(b"0\r\n\r\n")
+            return head + b"".join(out)
+        return head + body
 
     async def client(self, ci, spec):
         from simkit.simnet import Link, SimStream, read_response
@@ -575,6 +612,7 @@ class Runner:
             aborted = None
             self.stat("exchanges")
             self.stat("kind_" + ex["kind"])
+            self.stat("framing_" + ex.get("framing", "length"))
             if ex["kind"] in ("store_valid", "store_malformed"):
                 self.pending_store = ex
                 self.store_inflight = True
@@ -606,11 +644,13 @@ class Runner:
                 link.deliver(chunk)
                 self.delivery_log.append((ci, "d"))
                 sent += n
+                if sent >= len(raw) and ex["kind"] in ("close", "close_malformed") and ex not in self.close_delivered:
+                    self.close_delivered.append(ex)      # (the loop may stop before this coroutine runs again)
                 if ex.get("gap"):
                     await asyncio.sleep(ex["gap"])
                 else:
                     await asyncio.sleep(0)
-            if ex["kind"] in ("close", "close_malformed") and aborted is None:
+            if ex["kind"] in ("close", "close_malformed") and aborted is None and ex not in self.close_delivered:
                 self.close_delivered.append(ex)
             if net.get("kind") == "close_before_response" and aborted is None:
                 link.close_from_client()
@@ -632,7 +672,7 @@ class Runner:
             gc.collect()      # the simulator decides when cyclic garbage (dropped connections) is finalised
             if resp is not None and resp.headers.get("connection", "").lower() == "close":
                 link.close_from_client()
-            if aborted or ex.get("net") or "raw" in ex:
+            if aborted or ex.get("net") or "raw" in ex or ex.get("framing") in ("http10", "connection_close"):
                 link = None     # a connection whose framing was disturbed is never reused
 
     # ---------------- disk faults on the server side
@@ -914,6 +954,11 @@ class Runner:
         simnet.install_writable_hook(self.loop, None)
         runner = self
 
+        # Tornado's IOLoop.time() is time.time(): deadlines it computes (header/idle timeouts) would mix the real
+        # clock into timer order.  Every deadline in the system must read the simulated clock.
+        import tornado.ioloop
+        tornado.ioloop.IOLoop.time = lambda ioloop: runner.loop.time()
+
         def fake_bind(*a, **kw):
             return [_FakeSocket()]
         tornado.netutil.bind_sockets = fake_bind
@@ -959,8 +1004,10 @@ class Runner:
             # the loop stopped in the very iteration that answered the closetool request: its client never got to
             # read the response, so read the bytes the server wrote from the link directly
             for ex, link in self.inflight_close:
-                head = bytes(link.s2c[:15])
-                if head.startswith(b"HTTP/1.1 200") and id(ex) not in self.evaluated_close:
+                head = bytes(link.s2c[:200])
+                if head.startswith(b"HTTP/1.1 100"):
+                    head = head[head.find(b"\r\n\r\n") + 4:]
+                if head.startswith((b"HTTP/1.1 200", b"HTTP/1.0 200")) and id(ex) not in self.evaluated_close:
                     self.close_ok.append(self.expected_exit_code(ex))
                     self.stat("status_200")
                     if not self.closable:
